@@ -19,11 +19,35 @@ CLAIMED = {
         "Trusted: the reference Bellman-Ford, the SI unit table and the reference cost formula. Weight-factor sources covered: configuration, default, query override, query factor on configured Dijkstra.",
         "DESIGN.md section 5 C02",
     ),
+    "C03": (
+        "property-based testing: model-based re-accumulation of every returned route with SI units and an independently computed turn angle; exhaustive side table for heading differences and turn-classifier laws",
+        "Every route returned by any algorithm/orientation/direction is re-accumulated edge by edge (distance, time incl. turn delays, per-edge access and traversal cost, monotonicity, initial state) by a reference evaluator that shares no code with the models; cost comparisons use interval evaluation of the rate chain under +-0.25 % unit slack. All 129 600 heading pairs and all 361 angles are enumerated for the wrap-around and classifier laws.",
+        "Trusted: reference evaluator and SI table. Turn-class degree boundaries are taken from the implementation's classifier (the statement fixes none); its laws are checked exhaustively. Listed findings: Yen (state restarts at the spur vertex), re-opened vertices keeping stale children.",
+        "DESIGN.md section 5 C03",
+    ),
+    "C04": (
+        "property-based testing: independent allowed-edge / restricted-turn predicate over routes and trees produced with the real application-level frontier models",
+        "Road-class, vehicle-restriction (through the CSV row parser), turn-restriction, combined and edge-cut frontier models are built in memory from their services and driven by generated queries (numeric and mapped class names, vehicle parameters in other units); every route edge, tree branch and consecutive route pair is judged by an independent predicate using SI unit factors.",
+        "Trusted: the reference predicate; restriction values are generated >= 1 % away from the vehicle's value. Listed findings: edge-oriented boundary turns, Yen spur turns.",
+        "DESIGN.md section 5 C04",
+    ),
+    "C05": (
+        "property-based testing: reachability oracle (DFS on the reference graph) and least-cost labels (Bellman-Ford) for destination-less trees",
+        "Generated disconnected / one-way networks with edge-local restrictions; success iff reachable, NoPath (matched on the enum) otherwise, never an empty success or another error; destination-less trees must have exactly the reachable set as keys with least-cost labels.",
+        "Trusted: reference DFS and Bellman-Ford.",
+        "DESIGN.md section 5 C05",
+    ),
     "C07": (
         "property-based testing: direct calls with generated cost configurations against a reference cost formula + metamorphic relations",
         "200k+ generated (weights, vehicle rates incl. nested combined/offset, network rates, aggregation, state pairs incl. zero and negative changes) per quick run; traversal/access costs must be finite and > 0, estimates finite and >= 0, equal to the reference weighted sum or the floor under sum aggregation; metamorphic: linear in weights, zero-weight features and other edges' surcharges are ignored; EdgeTraversal totals through forward/reverse traversal with harness models applying exactly the generated state changes.",
         "Trusted: the reference formula (direct transcription of the statement). Magnitudes bounded so products cannot overflow f64.",
         "DESIGN.md section 5 C07",
+    ),
+    "C13": (
+        "property-based testing: validity predicates over k-shortest-path results (count, least-cost first route, loop-free walks, accumulation, distinctness, own cosine similarity) + metamorphic accept-all >= threshold; Yen executed in a killable helper process",
+        "Networks biased to many alternatives and to degenerate short paths; both algorithms, all similarity functions/thresholds/termination criteria, k from configuration or query, both orientations. Only validity predicates are used because alternatives depend on hash iteration order. Unbounded running is observed by executing Yen in a helper process with a wall budget.",
+        "Trusted: reference cosine, Bellman-Ford, walk predicates. Yen's implementation has one root defect with many symptoms, each listed by signature in known_findings.txt; single-via is fully judged.",
+        "DESIGN.md section 5 C13",
     ),
     "C14": (
         "property-based testing: exact-reproduction oracle on random multilinear data, differential between interpolator implementations, corner-bound/continuity/clamping oracle against the underlying random forest",
@@ -42,6 +66,12 @@ CLAIMED = {
         "All 77 ordered unit pairs and all constructor unit combinations are enumerated; magnitudes are generated (log-uniform, signed). Oracles: identity, linearity, 0.1 % round trip, SI physical factor (own table), definitional formulas for Time/Speed/Energy::create and their rejection guards.",
         "Trusted: the SI/US-customary reference factors written in the harness. Energy units are compared by round trip and linearity only, as the property states.",
         "DESIGN.md section 5 C09",
+    ),
+    "C10": (
+        "property-based testing with exhaustive limit sweeps: observed expansion counts (counting frontier model), reference replay of tree sizes, injected sleeps for runtime budgets",
+        "For every generated search the iteration / solution-size / combined limit is swept from 0 to beyond what the unlimited search needs (built through the configuration builder); each limited run must be identical to the unlimited result or an explicit terminated error naming the limit, success is monotone, observed expansions never exceed the iteration limit, and the size limit fires at the first check after the replayed tree size exceeds it; runtime budgets are tested with a traversal model that sleeps 3x the budget at a generated call.",
+        "Trusted: counting frontier wrapper (lower bound for expansions), the reference relaxation replay. Wall-clock only enters through a 60 ms budget vs a 180 ms injected sleep and a 10^4 margin on the other side.",
+        "DESIGN.md section 5 C10",
     ),
     "C11": (
         "model-based property testing: generated operation histories against an insertion-ordered Vec model",
